@@ -147,6 +147,12 @@ impl Prop for C05 {
         } else {
             (0..k).map(|_| gen_doc(&mut rng, &cfg, &sk)).collect()
         };
+        let mut docs = docs;
+        if !deep && rng.pct(8) {
+            // a stream that ends early, at a token boundary: the reader reports a plain end of input
+            let i = rng.below(docs.len());
+            docs[i].unclosed = true;
+        }
         let k = docs.len();
         let plan_of = |rng: &mut Rng, bytes: &[u8]| if rng.pct(80) { Plan::slice() } else { Plan::draw_transparent(rng, bytes) };
         let steps: Vec<Step> = (0..k)
